@@ -409,9 +409,9 @@ Section Success.
       apply IH; [|exact Hdq]. intros w Hw. apply H. apply filter_In in Hw. tauto.
   Qed.
 
-  Lemma get_pkg_ok w sched dq sel ex : went w -> dq_ok dq -> sel_good sel ->
-    get_pkg R w sched dq sel ex <> Err /\
-    forall dq' sel' i deps, get_pkg R w sched dq sel ex = Ok (dq', sel', i, deps) -> dq_ok dq' /\ sel_good sel'.
+  Lemma get_pkg_ok w dq sel ex : went w -> dq_ok dq -> sel_good sel ->
+    get_pkg R w dq sel ex <> Err /\
+    forall dq' sel' i deps, get_pkg R w dq sel ex = Ok (dq', sel', i, deps) -> dq_ok dq' /\ sel_good sel'.
   Proof.
     intros Hw Hdq Hsel. destruct (went_resolve_package w dq Hw Hdq) as [j [Hj ER]].
     assert (Hp : s_pin w = "") by (destruct Hw as [? [_ [_ [Hp _]]]]; exact Hp).
@@ -421,25 +421,28 @@ Section Success.
     destruct (get_deps (fuel_bound R) R j "" [] _) as [[st' ds]| | |]; cbn [rbind];
       [|congruence | split; [discriminate | intros ? ? ? ? E; discriminate] | split; [discriminate | intros ? ? ? ? E; discriminate]].
     destruct (GO st' ds eq_refl) as [D G]. destruct (dedup_by_name R ds) as [l added]. cbn [rbind].
+    pose proof (iif_loop_not_err R (fuel_bound R) 0 l added) as NI.
+    destruct (iif_loop (fuel_bound R) R 0 l added) as [deps0| | |]; cbn [rbind];
+      [|congruence | split; [discriminate | intros ? ? ? ? E; discriminate] | split; [discriminate | intros ? ? ? ? E; discriminate]].
     split; [discriminate|]. intros dq' sel' i deps E. inversion E; subst. split; assumption.
   Qed.
 
-  Lemma phase2_ok : forall ws scheds dq sel acc, (forall w, In w ws -> went w) -> dq_ok dq -> sel_good sel ->
-    phase2 R ws scheds dq sel acc <> Err.
+  Lemma phase2_ok : forall ws dq sel acc, (forall w, In w ws -> went w) -> dq_ok dq -> sel_good sel ->
+    phase2 R ws dq sel acc <> Err.
   Proof.
-    induction ws as [|w ws IH]; intros scheds dq sel acc H Hdq Hsel; [simpl; discriminate|].
-    cbn [phase2]. destruct (get_pkg_ok w (hd [] scheds) dq sel (snd acc) (H w (or_introl eq_refl)) Hdq Hsel) as [GN GO].
-    destruct (get_pkg R w (hd [] scheds) dq sel (snd acc)) as [[[[dq' sel'] i] deps]| | |]; cbn [rbind]; try congruence; try discriminate.
+    induction ws as [|w ws IH]; intros dq sel acc H Hdq Hsel; [simpl; discriminate|].
+    cbn [phase2]. destruct (get_pkg_ok w dq sel (snd acc) (H w (or_introl eq_refl)) Hdq Hsel) as [GN GO].
+    destruct (get_pkg R w dq sel (snd acc)) as [[[[dq' sel'] i] deps]| | |]; cbn [rbind]; try congruence; try discriminate.
     destruct (GO dq' sel' i deps eq_refl) as [D G]. apply IH; [intros w' Hw'; apply H; right; exact Hw' | exact D | exact G].
   Qed.
 
   (* a world of such entries resolves *)
-  Theorem lock_resolves L dq0 scheds : dq_ok dq0 ->
+  Theorem lock_resolves L dq0 : dq_ok dq0 ->
     (forall e, In e L -> d_neg (cook_dep e) = None /\ went (cook_str e)) ->
-    exists S', resolve U L dq0 scheds = Ok S'.
+    exists S', resolve U L dq0 = Ok S'.
   Proof.
     intros Hdq HL.
-    assert (NE : resolve U L dq0 scheds <> Err).
+    assert (NE : resolve U L dq0 <> Err).
     { unfold resolve, resolve_with.
       destruct (constrain_members (List.map cook_dep L)) with (dq := dq0) as [dq1 [EC Hdq1]]; [|exact Hdq|].
       { intros cd Hcd. apply in_map_iff in Hcd. destruct Hcd as [e [<- He]]. destruct (HL e He) as [Hn [j [Hj [Nm [_ [Hd [a [Hr Hv]]]]]]]].
@@ -453,8 +456,8 @@ Section Success.
       destruct (phase1_ok (List.length (List.map d_pos (List.map cook_dep L))) _ dq1 [] HW Hdq1) as [PN PO].
       destruct (phase1 _ R _ dq1 []) as [[dq2 depmap]| | |]; cbn [rbind]; try congruence; try discriminate.
       apply phase2_ok; [exact HW | eapply PO; reflexivity|]. split; [intros n j E; discriminate | intros n j E; discriminate]. }
-    pose proof (resolve_no_panic U L dq0 scheds) as NP. pose proof (termination_lemma U L dq0 scheds) as NF.
-    destruct (resolve U L dq0 scheds) as [S'| | |]; [exists S'; reflexivity | congruence | congruence | congruence].
+    pose proof (resolve_no_panic U L dq0) as NP. pose proof (termination_lemma U L dq0) as NF.
+    destruct (resolve U L dq0) as [S'| | |]; [exists S'; reflexivity | congruence | congruence | congruence].
   Qed.
 End Success.
 
@@ -605,24 +608,24 @@ Proof.
 Qed.
 
 (* ================= the fixpoint ======================================================================= *)
-Theorem fixpoint_complete U W dq0 scheds S :
-  envelope_b U W = true -> resolve U W dq0 scheds = Ok S ->
+Theorem fixpoint_complete U W dq0 S :
+  envelope_b U W = true -> resolve U W dq0 = Ok S ->
   (forall j, In j S -> lockable (nth j U dummy_pkg)) ->
   (forall j, In j S -> member_answers U j) ->
   no_member_excluded U S -> deps_wellformed U S ->
-  forall scheds', exists S', resolve U (lock_world U dq0 S) dq0 scheds' = Ok S' /\ forall j, In j S' <-> In j S.
+  exists S', resolve U (lock_world U dq0 S) dq0 = Ok S' /\ forall j, In j S' <-> In j S.
 Proof.
-  intros HE H HL HA HN HW scheds'. pose proof (envelope_facts U W HE) as EF.
-  pose proof (members_lemma U W dq0 scheds S H) as [_ HV].
+  intros HE H HL HA HN HW. pose proof (envelope_facts U W HE) as EF.
+  pose proof (members_lemma U W dq0 S H) as [_ HV].
   assert (SV : forall j, In j S -> valid (new_resolver U) j) by (intros j Hj; apply valid_new; apply HV; exact Hj).
-  destruct (lock_resolves U EF S SV (resolve_closure U EF W dq0 scheds S H)) with (L := lock_world U dq0 S) (dq0 := dq0) (scheds := scheds')
+  destruct (lock_resolves U EF S SV (resolve_closure U EF W dq0 S H)) with (L := lock_world U dq0 S) (dq0 := dq0)
     as [S' HS'].
   - intros j Hj. rewrite getp_new_resolver. cbn [cook_pkg k_pkg]. apply (HA j Hj).
   - exact HN.
   - exact HW.
   - intros j Hj. apply provides_nodup; [exact EF | apply SV; exact Hj].
   - (* members were never disqualified *)
-    intros x Hx Hin. pose proof (resolve_ok _ _ _ _ _ (new_resolver_wf2 U) H) as [_ [HM _]].
+    intros x Hx Hin. pose proof (resolve_ok _ _ _ _ (new_resolver_wf2 U) H) as [_ [HM _]].
     rewrite Forall_forall in HM. destruct (HM x Hx) as [_ [N|I]]; [exact (N Hin)|].
     unfold has_iif in I. rewrite (ef_no_iif _ EF _ (getp_in _ _ (SV x Hx))) in I. discriminate.
   - intros e He. unfold lock_world, Lock.lock_of in He. rewrite map_map in He. apply in_map_iff in He.
@@ -635,7 +638,7 @@ Proof.
     destruct (parse_version (p_version (nth j U dummy_pkg))) as [a|] eqn:Ea; [|congruence].
     exists a. split; [reflexivity|]. rewrite getp_new_resolver. cbn [cook_pkg k_ver]. exact Ea.
   - exists S'. split; [exact HS'|].
-    destruct (fixpoint_same_members U W dq0 scheds S HE H HL) as [_ B]. exact (B scheds' S' HS').
+    destruct (fixpoint_same_members U W dq0 S HE H HL) as [_ B]. exact (B S' HS').
 Qed.
 
 (* ---- any order of the entries (lock.go sorts them), repetitions allowed --------------------------- *)
@@ -647,13 +650,13 @@ Proof.
   unfold lock_world, Lock.lock_of. rewrite map_map, in_map_iff. split; intros [j [A B]]; exists j; [split; [exact B | symmetry; exact A] | split; [symmetry; exact B | exact A]].
 Qed.
 
-Theorem fixpoint_same_members_any U W dq0 scheds S L :
-  envelope_b U W = true -> resolve U W dq0 scheds = Ok S ->
+Theorem fixpoint_same_members_any U W dq0 S L :
+  envelope_b U W = true -> resolve U W dq0 = Ok S ->
   (forall j, In j S -> lockable (nth j U dummy_pkg)) -> lists_lock_entries U dq0 S L ->
   envelope_b U L = true /\
-  forall scheds' S', resolve U L dq0 scheds' = Ok S' -> forall j, In j S' <-> In j S.
+  forall S', resolve U L dq0 = Ok S' -> forall j, In j S' <-> In j S.
 Proof.
-  intros HE H HL HLL. apply (same_members U W dq0 scheds S L HE H).
+  intros HE H HL HLL. apply (same_members U W dq0 S L HE H).
   - intros e He. apply HLL in He. apply lock_world_In in He. destruct He as [j [Hj ->]].
     exists j. split; [exact Hj | apply lock_entry_names; apply HL; exact Hj].
   - intros j Hj. exists (Lock.lock_entry_of (cand_at U dq0 j)). split.
@@ -661,23 +664,23 @@ Proof.
     + apply lock_entry_names. apply HL. exact Hj.
 Qed.
 
-Theorem fixpoint_complete_any U W dq0 scheds S L :
-  envelope_b U W = true -> resolve U W dq0 scheds = Ok S ->
+Theorem fixpoint_complete_any U W dq0 S L :
+  envelope_b U W = true -> resolve U W dq0 = Ok S ->
   (forall j, In j S -> lockable (nth j U dummy_pkg)) ->
   (forall j, In j S -> member_answers U j) ->
   no_member_excluded U S -> deps_wellformed U S -> lists_lock_entries U dq0 S L ->
-  forall scheds', exists S', resolve U L dq0 scheds' = Ok S' /\ forall j, In j S' <-> In j S.
+  exists S', resolve U L dq0 = Ok S' /\ forall j, In j S' <-> In j S.
 Proof.
-  intros HE H HL HA HN HW HLL scheds'. pose proof (envelope_facts U W HE) as EF.
-  pose proof (members_lemma U W dq0 scheds S H) as [_ HV].
+  intros HE H HL HA HN HW HLL. pose proof (envelope_facts U W HE) as EF.
+  pose proof (members_lemma U W dq0 S H) as [_ HV].
   assert (SV : forall j, In j S -> valid (new_resolver U) j) by (intros j Hj; apply valid_new; apply HV; exact Hj).
-  destruct (lock_resolves U EF S SV (resolve_closure U EF W dq0 scheds S H)) with (L := L) (dq0 := dq0) (scheds := scheds')
+  destruct (lock_resolves U EF S SV (resolve_closure U EF W dq0 S H)) with (L := L) (dq0 := dq0)
     as [S' HS'].
   - intros j Hj. rewrite getp_new_resolver. cbn [cook_pkg k_pkg]. apply (HA j Hj).
   - exact HN.
   - exact HW.
   - intros j Hj. apply provides_nodup; [exact EF | apply SV; exact Hj].
-  - intros x Hx Hin. pose proof (resolve_ok _ _ _ _ _ (new_resolver_wf2 U) H) as [_ [HM _]].
+  - intros x Hx Hin. pose proof (resolve_ok _ _ _ _ (new_resolver_wf2 U) H) as [_ [HM _]].
     rewrite Forall_forall in HM. destruct (HM x Hx) as [_ [N|I]]; [exact (N Hin)|].
     unfold has_iif in I. rewrite (ef_no_iif _ EF _ (getp_in _ _ (SV x Hx))) in I. discriminate.
   - intros e He. apply HLL in He. apply lock_world_In in He. destruct He as [j [Hj ->]].
@@ -690,12 +693,12 @@ Proof.
     destruct (parse_version (p_version (nth j U dummy_pkg))) as [a|] eqn:Ea; [|congruence].
     exists a. split; [reflexivity|]. rewrite getp_new_resolver. cbn [cook_pkg k_ver]. exact Ea.
   - exists S'. split; [exact HS'|].
-    destruct (fixpoint_same_members_any U W dq0 scheds S L HE H HL HLL) as [_ B]. exact (B scheds' S' HS').
+    destruct (fixpoint_same_members_any U W dq0 S L HE H HL HLL) as [_ B]. exact (B S' HS').
 Qed.
 
 (* the statement of Properties/C09.v *)
-Lemma fixpoint_resolver_lemma (U : universe) W dq0 scheds S :
-  envelope_b U W = true -> resolve U W dq0 scheds = Ok S ->
+Lemma fixpoint_resolver_lemma (U : universe) W dq0 S :
+  envelope_b U W = true -> resolve U W dq0 = Ok S ->
   (forall j, In j S -> lockable (nth j U dummy_pkg)) ->
   Closed U W (pkgs_of U S) /\
   lock_world U dq0 S = Lock.lock_of (List.map (cand_at U dq0) S) /\
@@ -703,27 +706,27 @@ Lemma fixpoint_resolver_lemma (U : universe) W dq0 scheds S :
      LockProofs.admitted (lock_universe U dq0) (Lock.lock_entry_of (cand_at U dq0 j)) k' -> k' = cand_at U dq0 j) /\
   (forall L, lists_lock_entries U dq0 S L ->
      envelope_b U L = true /\
-     forall scheds' S', resolve U L dq0 scheds' = Ok S' -> forall j, In j S' <-> In j S) /\
+     forall S', resolve U L dq0 = Ok S' -> forall j, In j S' <-> In j S) /\
   ((forall j, In j S -> LockProofs.admitted (lock_universe U dq0) (Lock.lock_entry_of (cand_at U dq0 j)) (cand_at U dq0 j)) ->
    no_member_excluded U S -> deps_wellformed U S ->
    forall L, lists_lock_entries U dq0 S L ->
-   forall scheds', exists S', resolve U L dq0 scheds' = Ok S' /\ forall j, In j S' <-> In j S).
+   exists S', resolve U L dq0 = Ok S' /\ forall j, In j S' <-> In j S).
 Proof.
-  intros HE H HL. destruct (fixpoint_resolver_partial_lemma U W dq0 scheds S HE H HL) as [A [B [_ [D _]]]].
+  intros HE H HL. destruct (fixpoint_resolver_partial_lemma U W dq0 S HE H HL) as [A [B [_ [D _]]]].
   split; [exact A|]. split; [exact B|]. split; [exact D|].
-  split; [intros L HLL; exact (fixpoint_same_members_any U W dq0 scheds S L HE H HL HLL)|].
-  intros HA HN HW L HLL. apply (fixpoint_complete_any U W dq0 scheds S L HE H HL); try assumption.
+  split; [intros L HLL; exact (fixpoint_same_members_any U W dq0 S L HE H HL HLL)|].
+  intros HA HN HW L HLL. apply (fixpoint_complete_any U W dq0 S L HE H HL); try assumption.
   intros j Hj. apply (admitted_member_answers U dq0 j (HL j Hj)). apply HA. exact Hj.
 Qed.
 
 (* the hypotheses are satisfiable: a -> b>0.5, v, !zz; b provides v=2 *)
 Definition U_example : universe := [wp "a" "1.0" ["b>0.5"; "v"; "!zz"] [] []; wp "b" "1.0" [] ["v=2"] []].
 Lemma fixpoint_example :
-  envelope_b U_example ["a"; "v"] = true /\ resolve U_example ["a"; "v"] [] [] = Ok [1; 0] /\
+  envelope_b U_example ["a"; "v"] = true /\ resolve U_example ["a"; "v"] [] = Ok [1; 0] /\
   (forall j, In j [1; 0] -> lockable (nth j U_example dummy_pkg)) /\
   (forall j, In j [1; 0] -> LockProofs.admitted (lock_universe U_example []) (Lock.lock_entry_of (cand_at U_example [] j)) (cand_at U_example [] j)) /\
   no_member_excluded U_example [1; 0] /\ deps_wellformed U_example [1; 0] /\
-  lock_world U_example [] [1; 0] = ["b=1.0"; "a=1.0"] /\ resolve U_example ["b=1.0"; "a=1.0"] [] [] = Ok [1; 0].
+  lock_world U_example [] [1; 0] = ["b=1.0"; "a=1.0"] /\ resolve U_example ["b=1.0"; "a=1.0"] [] = Ok [1; 0].
 Proof.
   split; [vm_compute; reflexivity|]. split; [vm_compute; reflexivity|].
   split. { intros j [<-|[<-|[]]]; (split; [|split]); vm_compute; repeat split; discriminate. }
